@@ -326,6 +326,35 @@ func (g *Gen) pow(x, y d128.Decimal, m int, wm bool) {
 
 func genC18(g *Gen) {
 	g.setMode(0)
+	// y = +-1 in every encoding of one (10^k * 10^-k), every mode, bases that are not powers of ten: Pow(x, 1) = x and
+	// Pow(x, -1) = the rounded reciprocal exactly
+	g.gridRun(35*2, 0.2, func(i int) {
+		k := i / 2
+		y := mk(i%2 == 1, pow10(k), -k)
+		x := mk(g.r.Intn(2) == 0, big.NewInt(int64([]int{3, 4, 7, 6, 9, 11, 13}[g.r.Intn(7)])), g.r.Intn(7)-3)
+		if g.r.Intn(3) == 0 {
+			x = mk(g.r.Intn(2) == 0, g.fullCoef(), g.r.Intn(41)-40)
+		}
+		for m := 0; m < 6; m++ {
+			g.pow(x, y, m, true)
+		}
+		// and the base 1 in every encoding, any exponent
+		g.pow(mk(false, pow10(k), -k), randFinite(g.r), g.r.Intn(6), true)
+	})
+	// powers of ten raised to integers far too large for the range (the exponent product leaves 64 bits)
+	bigYs := []string{"1000000000000000", "1500000000000001", "5000000000000000001", "4503599627370496", "6148914691236517206", "18446744073709551615", "18446744073709551617",
+		"9223372036854775807", "9223372036854775808", "1e19", "1e20", "3e33", "9999999999999999999999999999999999", "1e6000"}
+	g.gridRun(len(bigYs)*4, 0.1, func(i int) {
+		y, err := d128.Parse(bigYs[i/4])
+		if err != nil {
+			return
+		}
+		xe := []int{2, -10, 4096, -3}[i%4]
+		x := mk(g.r.Intn(2) == 0, big.NewInt(1), xe)
+		g.pow(x, y, g.r.Intn(6), true)
+		g.pow(x, y.Neg(), g.r.Intn(6), true)
+		g.pow(g.cohort(x), y, g.r.Intn(6), true)
+	})
 	for !g.w.full() {
 		switch g.r.Intn(10) {
 		case 0, 1: // the shortcut ladder with cohort variants
